@@ -207,7 +207,16 @@ _POOL_ITEMS: List[Any] = []
 def _pool_call(i: int) -> Any:
     fn, item = _POOL_FN, _POOL_ITEMS[i]
     try:
-        return ("ok", fn(item))
+        r = fn(item)
+        if isinstance(r, dict):
+            from . import xsolver
+
+            r["xsolver"] = dict(xsolver.STATS)
+            r["xsolver_notes"] = list(xsolver.NOTES[:3])
+            for k in xsolver.STATS:
+                xsolver.STATS[k] = 0
+            del xsolver.NOTES[:]
+        return ("ok", r)
     except Inconclusive as e:
         return ("inconclusive", f"{item!r:.80}: {e}")
     except BaseException as e:  # engine bug: must not be swallowed as a pass
